@@ -84,6 +84,10 @@ def k1(ctx, kr):
                 _add(kr, 'C15/K1/not-relative-encoding', 'semantic tokens at (line, col, len) %s do not decode (LSP relative encoding) to these positions: deltaLine/deltaStart hold absolute values' % pos,
                      {'tokens': pos}, ('semtok_positions', (pos,)))
             elif r == z3.unknown: kr.inconc('solver unknown')
+            elif K >= 2 and len(kr.validate) < 2:
+                s2 = z3.Solver(); s2.add(*pr.pc); s2.add(*[z3.And(z3.ULT(a, 5), z3.ULT(b_, 30)) for a, b_, c in st['pos']])
+                if s2.check() == z3.sat:
+                    m2 = s2.model(); kr.validate.append(('semtok_positions', ([(m2.eval(a, True).as_long(), m2.eval(b_, True).as_long(), c) for a, b_, c in st['pos']],)))
             if len(kr.samples) < 2: kr.samples.append({'k': K, 'output_tokens': len(out)})
         M.explore(entry, on_path)
     kr.queries += M.stats['smt']
